@@ -295,7 +295,7 @@ func runC20(rt *rapid.T) {
 	quiescent("the first select")
 	phases := rapid.IntRange(2, 8).Draw(rt, "phases")
 	for ph := 0; ph < phases; ph++ {
-		op := rapid.SampledFrom([]string{"burst", "burst", "fire", "inbound", "refused", "race-deselect", "race-drop", "drop-pending", "write-error", "close-reopen", "close-at-retry"}).Draw(rt, "phase")
+		op := rapid.SampledFrom([]string{"burst", "burst", "fire", "inbound", "refused", "race-deselect", "race-drop", "drop-pending", "write-error", "close-reopen", "close-at-retry", "flap-reconnect"}).Draw(rt, "phase")
 		logf("phase %s", op)
 		switch op {
 		case "burst":
@@ -430,6 +430,38 @@ func runC20(rt *rapid.T) {
 			selected, linkUp = false, false
 			synctest.Wait()
 			// whatever part of the frame arrived is not a complete data frame
+			connect()
+			if active {
+				reconnects++
+			}
+		case "flap-reconnect":
+			// the link drops and the peer FLAPS: it accepts each re-established connection and resets it
+			// at once (1-4 times) before finally staying - generations that die while the reconnect
+			// attempt that created them is still returning; one reconnect loop at a time is accounted
+			// for, whatever overlaps internally
+			p.C.Reset()
+			_ = p.C.Close()
+			selected, linkUp = false, false
+			flaps := rapid.IntRange(1, 4).Draw(rt, "flaps")
+			for i := 0; i < flaps; i++ {
+				synctest.Wait()
+				if active && (w.ln == nil || w.ln.Closed()) {
+					_ = w.listen()
+				}
+				q, err := w.peerUp(10 * time.Second)
+				if err != nil {
+					fail("flap %d: the link was not re-established: %v", i, err)
+				}
+				all = append(all, q)
+				q.C.Reset()
+				_ = q.C.Close()
+				if active {
+					reconnects++
+				}
+				if g := w.conn.Metrics().Reconnecting(); g < 0 {
+					fail("the reconnecting gauge is %d while the peer flaps", g)
+				}
+			}
 			connect()
 			if active {
 				reconnects++
